@@ -143,7 +143,7 @@ def search(pid, records, repo, scratch, seeds=4000, steps=80):
             rec = {'found': True, 'input': ce, 'tags': tags, 'collection': col,
                    'how': 'replay driver: pseudo-random histories on the real code against a reference model and the executable invariant',
                    'rerun': 'replay explore %s %d %d' % (col, seeds, steps)}
-            if pid in tags:
+            if pid in tags or 'C10' in tags:
                 rec['tried'] = tried
                 return rec
             other.append(rec)
